@@ -344,7 +344,11 @@ def conformance(sd, scns, idx, shard_execs):
     # the binding demonstrated on every run: one recorded call removed from one execution, one reply flipped in another - both
     # must be rejected, otherwise the trace spec constrains nothing
     selftest = None
-    for name, ms, lines in jobs:
+    drifting = {r["scenario"]: {x["tr"] for x in r["drift"]} for r in res}
+    for name, ms, all_lines in jobs:
+        if [r for r in res if r["scenario"] == name and r["drift_n"] > len(r["drift"])]:
+            continue      # not every drifting execution of this scenario is listed: do not pick from it
+        lines = [ln for ln in all_lines if ln["tr"] not in drifting.get(name, set())]     # executions that conform as recorded
         if len(lines) >= 2 and len(lines[0]["sched"]) > 3:
             a = json.loads(json.dumps(lines[0]))
             del a["sched"][2]
